@@ -451,6 +451,9 @@ func (e *Enc) unop(fr *Frame, st *State, x *ssa.UnOp) *Val {
 		if g, ok := x.X.(*ssa.Global); ok && e.w.isSentinel(g) {
 			return e.sentinelVal(st, g)
 		}
+		if g, ok := x.X.(*ssa.Global); ok && e.w.neverStored(g) {
+			return e.zero(t)
+		}
 		e.assume(st, fmt.Sprintf("(not (= %s 0))", a.term()))
 		v := e.loadAt(st, a.term(), t, a.Comp)
 		v = e.nameVal(v, sanitize(x.Name()))
